@@ -90,7 +90,12 @@ type svcAcmeClient struct {
 
 // notify is the callback of the work queue. The queue cannot drop an item that
 // is waiting for its turn, so an item removed in the meantime is skipped here.
-func (s *svcAcmeClient) notify(_ context.Context, item any) error {
+func (s *svcAcmeClient) notify(ctx context.Context, item any) error {
+	if ctx.Err() != nil {
+		// the leadership was lost: a queue that was shut down still hands
+		// the items it has to the worker, and the new leader owns them now
+		return nil
+	}
 	s.mu.Lock()
 	removed := s.removed[item]
 	s.mu.Unlock()
